@@ -451,6 +451,12 @@ def proof_stage(ctx, modules, searcher=None, thorough_leanchecker=True, extra_ta
             broken = (t.split(".")[-1] in bad_decls) or not failing
             ctx.obligation("theorem " + t, not broken,
                            "lake build failed here" if broken else "not reached by an error (build failed elsewhere)")
+        thm_names = {t.split(".")[-1] for t in thms}
+        for f in failing:      # a failing lemma outside the property file is an undischarged obligation too
+            if f.get("decl") and f["decl"] not in thm_names:
+                nm = "lemma %s (%s)" % (f["decl"], f["file"])
+                if nm not in [o[0] for o in ctx.obligations]:
+                    ctx.obligation(nm, False, f.get("msg", ""))
         lake_failure_violation(ctx, failing, out, searcher)
         return False
     aok, bad, axioms, files = ctx.audit(list(modules), thms)
